@@ -439,7 +439,7 @@ class MyList(list):
 _OBJ = object()
 
 A0 = [
-    const(None), const(True), const(False), const(0), const(1), const(-1), const(2), const(13), const(2**70), const(10**400, "10**400"),
+    const(None), const(True), const(False), const(0), const(1), const(-1), const(2), const(13), const(2**70), const(10**400, "10**400"), const(10**5000, "10**5000"),
     const(0.0), const(-0.0), const(1.0), const(1.5), const(-1.5), const(1e308), const(float("nan"), "nan"),
     const(float("inf"), "inf"), const(float("-inf"), "-inf"),
     const(""), const("a"), const("b"), const("x"), const("red"), const("1"), const("1.5"), const(" 1 "), const("é"),
